@@ -72,6 +72,7 @@ VARIANTS = {
     "b80>a": ("http", "b.test", 80, "host_a"),
     "a80>host/stream": ("http", "a.test", 80, "stream_host"),
 }
+TUNNEL_VARIANTS = ["a80", "a80>host"]  # inside a CONNECT tunnel: plain request / request whose host the addon rewrites
 QUICK_VARIANTS = ["a80", "a80s", "a80>port", "a80>host", "a80>newconn", "a80>host/stream"]
 
 # ---------------------------------------------------------------------------------------------- instrumentation (read-only)
@@ -93,8 +94,12 @@ def _authority(host, port, scheme):
 
 
 class Sys:
-    def __init__(self, proto, mode):
+    def __init__(self, proto, mode, tunnel=None):
         self.proto, self.mode = proto, mode
+        # tunnel: None, or the addon's rewrite of the CONNECT destination in the http_connect hook ("none" | "host" | "port");
+        # the client then first sends `CONNECT a.test:80` and all requests travel inside the tunnel (origin-form)
+        self.tunnel = tunnel
+        self.tunnel_dest = None
         del _LAYERS[:]
         mode_str = "regular" if mode == "regular" else "upstream:http://%s:%d" % PROXY
         kw = dict(policy=self.policy, snap=h1.http_snap)
@@ -118,10 +123,20 @@ class Sys:
         self.hist: list = []
         self.overtaking = False
         self.kept_open: set = set()
+        if tunnel is not None:
+            self.w.client_send(b"CONNECT a.test:80 HTTP/1.1\r\nHost: a.test:80\r\n\r\n")
 
     # -- the addon -------------------------------------------------------------------------------------------------
     def policy(self, name, data, world):
         if not isinstance(data, http.HTTPFlow):
+            return
+        if name == "http_connect" and self.tunnel is not None:
+            # the CONNECT flow's destination after the addon's rewrite is the destination of everything in the tunnel
+            if self.tunnel == "host":
+                data.request.host = "b.test"
+            elif self.tunnel == "port":
+                data.request.port = 8080
+            self.tunnel_dest = (data.request.host, data.request.port)
             return
         k = self.k_of(data.request.path)
         if k is None or k >= len(self.variants):
@@ -148,7 +163,14 @@ class Sys:
             if streamed:
                 r.stream = True
             via = data.server_conn.via
-            self.intended[k] = (r.scheme, r.host, r.port, (via[0], tuple(via[1])) if via else None)
+            host, port = r.host, r.port
+            if self.tunnel_dest is not None:
+                # inside a tunnel the destination is the CONNECT flow's (rewritten) destination, unless this request's
+                # own rewrite changes a component
+                port = self.tunnel_dest[1]
+                if rewrite == "none":
+                    host = self.tunnel_dest[0]
+            self.intended[k] = (r.scheme, host, port, (via[0], tuple(via[1])) if via else None)
         if name == "response":
             sc = data.server_conn
             for attr, val in (("address", ("evil.test", 1)), ("via", ("http", ("evil.test", 1)))):
@@ -186,7 +208,8 @@ class Sys:
         body = b"hi" if rewrite == "stream_host" else b""
         if self.proto == "h1":
             method = b"POST" if body else b"GET"
-            head = method + b" " + scheme.encode() + b"://" + auth + b"/r%d HTTP/1.1\r\nHost: " % k + auth + b"\r\n"
+            target = (scheme.encode() + b"://" + auth) if self.tunnel is None else b""  # origin-form inside a tunnel
+            head = method + b" " + target + b"/r%d HTTP/1.1\r\nHost: " % k + auth + b"\r\n"
             if body:
                 head += b"Content-Length: %d\r\n" % len(body)
             self.w.client_send(head + b"\r\n" + body)
@@ -247,9 +270,12 @@ class Sys:
     def outstanding(self):
         if self.proto == "h1":
             methods = [b"POST" if VARIANTS[v][3] == "stream_host" else b"GET" for v in self.variants]
+            extra = 0
+            if self.tunnel is not None:
+                methods, extra = [b"CONNECT"] + methods, 1
             msgs, _ = http1ref.parse_responses(self.w.client.w.data, methods, eof=False)
             finals = [m for m in msgs if not m["start"][1].startswith(b"1")]
-            return self.nreq - len(finals)
+            return self.nreq + extra - len(finals)
         n = 0
         for sid in self.sids:
             st = self.hw.stream(sid)
@@ -262,6 +288,8 @@ class Sys:
             return False
         if self.hw is not None and (self.hw.peer.terminated or self.hw.peer.conn_error):
             return False
+        if self.tunnel is not None and self.w.client.w.data and not self.w.client.w.data.startswith(b"HTTP/1.1 2"):
+            return False  # the CONNECT was refused: there is no tunnel to send requests through
         return True
 
     def point(self, variants, max_req, concurrency):
@@ -308,7 +336,7 @@ class Sys:
                     conns.append([list(c.address) if c.address else None, bool(c.tls), repr(c.via), c.state.value, c.error, c in self.layer.waiting_for_establishment])
         # the variant of a request only matters until its forwarding hook has fired (then `intended` holds its effect)
         undecided = [[k, v] for k, v in enumerate(self.variants) if k not in self.intended]
-        return [self.proto, self.mode, self.nreq, undecided, client, socks, conns, sorted(self.intended.items()), len(self.attempts), len(w.errors)]
+        return [self.proto, self.mode, self.tunnel, self.tunnel_dest, self.nreq, undecided, client, socks, conns, sorted(self.intended.items()), len(self.attempts), len(w.errors)]
 
     def dispose(self):
         if not self.disposed:
@@ -322,8 +350,8 @@ class Sys:
 # ---------------------------------------------------------------------------------------------- oracle
 def judge(s: Sys, hist, t: Tally):
     w = s.w
-    base = {"proto": s.proto, "mode": s.mode, "prior_fail": s.had_fail}
-    case = {"proto": s.proto, "mode": s.mode, "hist": [list(a) for a in hist]}
+    base = {"proto": s.proto, "mode": s.mode, "prior_fail": s.had_fail, "tunnel": s.tunnel or "-"}
+    case = {"proto": s.proto, "mode": s.mode, "tunnel": s.tunnel, "hist": [list(a) for a in hist]}
     seen_k = {}
     for i, e in enumerate(w.servers):
         msgs, verdict = s.heads(i)
@@ -423,18 +451,18 @@ def judge_waiting(s: Sys, t: Tally):
             got = {"address": list(conn.address) if conn.address else None, "tls": bool(conn.tls), "via": [conn.via[0], list(conn.via[1])] if conn.via else None, "transport": conn.transport_protocol}
             want = {"address": [host, port], "tls": scheme == "https", "via": [via[0], list(via[1])] if via else None, "transport": "tcp"}
             feats = {"proto": s.proto, "mode": s.mode, "prior_fail": s.had_fail, "variant": s.variants[k], "reused": len(cmds) > 1}
-            case = {"proto": s.proto, "mode": s.mode, "hist": [list(a) for a in s.hist]}
+            case = {"proto": s.proto, "mode": s.mode, "tunnel": s.tunnel, "hist": [list(a) for a in s.hist]}
             t.judge("waits_only_on_matching_conn", got == want, feats, case, want, got)
 
 
 # ---------------------------------------------------------------------------------------------- executor for vmc.explore._dev_rec
 class Exec:
-    def __init__(self, proto, mode, variants, max_req):
-        self.proto, self.mode, self.variants, self.max_req = proto, mode, variants, max_req
+    def __init__(self, proto, mode, variants, max_req, tunnel=None):
+        self.proto, self.mode, self.variants, self.max_req, self.tunnel = proto, mode, variants, max_req, tunnel
         self.concurrency = 1 if proto == "h1" else 2
 
     def run(self, prefix, t: Tally, verbose=False):
-        s = Sys(self.proto, self.mode)
+        s = Sys(self.proto, self.mode, self.tunnel)
         choices, widths, costs = [], [], []
         try:
             for _ in range(200):
@@ -465,7 +493,7 @@ class Exec:
             judge(s, hist, t)
             closed = s.hw.close_out() if s.hw is not None else s.w.close_out()
             judge(s, hist, t)
-            case = {"proto": s.proto, "mode": s.mode, "hist": [list(a) for a in hist]}
+            case = {"proto": s.proto, "mode": s.mode, "tunnel": s.tunnel, "hist": [list(a) for a in hist]}
             feats = {"proto": s.proto, "mode": s.mode, "prior_fail": s.had_fail, "variant": s.variants[-1] if s.variants else "-", "reused": False}
             t.judge("handler_terminates", closed, feats, case, True, closed)
             nontrivial = s.nreq >= 2
@@ -511,8 +539,15 @@ def run(ctx):
     for proto, variants, max_req, bound in plans:
         for mode in ("regular", "upstream"):
             for i in range(len(variants)):
-                tasks.append((proto, mode, variants, max_req, bound, (i,)))
-    ctx.log("%d DFS tasks (plan x mode x first request)" % len(tasks))
+                tasks.append((proto, mode, variants, max_req, bound, (i,), None))
+    # CONNECT tunnels (HTTP/1 client): the addon leaves / rewrites the CONNECT destination in http_connect, the requests
+    # then travel inside the tunnel; one task per (mode, rewrite), the whole tree
+    tunnel_req, tunnel_bound = ctx.pick(2, 3), ctx.pick(2, 3)
+    for mode in ("regular", "upstream"):
+        for tunnel in ("none", "host", "port"):
+            tasks.append(("h1", mode, TUNNEL_VARIANTS, tunnel_req, tunnel_bound, (), tunnel))
+    ctx.bounds["connect_tunnels"] = {"http_connect_rewrite": ["none", "host", "port"], "requests_inside": TUNNEL_VARIANTS, "max_requests": tunnel_req, "environment_deviation_bound": tunnel_bound}
+    ctx.log("%d DFS tasks (plan x mode x first request, + CONNECT tunnels)" % len(tasks))
     par.pmap_tally(task_fn, tasks, ctx.tally, nchunks=len(tasks), nproc=pool_size())
     t = ctx.tally
     ctx.log("distinct states %d, transitions %d, executions %d" % (len(t.state_set), t.transitions, t.executions))
@@ -520,13 +555,13 @@ def run(ctx):
 
 def task_fn(chunk):
     t = Tally()
-    for proto, mode, variants, max_req, bound, prefix in chunk:
-        explore._dev_rec(Exec(proto, mode, variants, max_req), tuple(prefix), 0, bound, t)
+    for proto, mode, variants, max_req, bound, prefix, tunnel in chunk:
+        explore._dev_rec(Exec(proto, mode, variants, max_req, tunnel), tuple(prefix), 0, bound, t)
     return t
 
 
 def replay(case, t, verbose=False):
-    s = Sys(case["proto"], case["mode"])
+    s = Sys(case["proto"], case["mode"], case.get("tunnel"))
     try:
         hist = [tuple(a) for a in case["hist"]]
         for a in hist:
